@@ -155,6 +155,38 @@ class NetScenario:
         return self.ops
 
 
+def stale_shutdown_cases(P, seed, n=24):
+    """A connection's task ends (its Shutdown request is queued) while a datagram for its key and a SYN that re-uses
+    the key (a late duplicate of the original SYN, or a peer that restarted) are already waiting: which the
+    dispatcher takes first is tokio's choice - repeated so that every order is seen."""
+    from gens.vsock import mk_dgram
+    impl = Impl()
+    cases = []
+    try:
+        for k in range(n):
+            ops = []
+
+            def do(l):
+                ops.append(l)
+                return impl.op(l)
+            do(f"net new seed={seed * 1000 + k + 1} max=8 socks=2")
+            do("net accept 1 2")
+            do("net connect 1 1 2")
+            out = do("net pump 10")
+            m = re.search(r"1>2:t4:c(\d+)", out)
+            if not m:
+                continue
+            cid = int(m.group(1))
+            for l in ("net state c1", "net state a1", "net write c1 100", "net close a1", "net accept 2 2",
+                      f"net raw 1 2 {mk_dgram(4, cid, 0, 0, 0, 777, 0).hex()}", "net stage 2 to=2", "net adv 1000000000",
+                      "net state a2", "net tables", "net pump 50", "net adv 45000000", "net tables"):
+                do(l)
+            cases.append(ops)
+    finally:
+        impl.close()
+    return cases
+
+
 def _cache_key(seed, tier):
     import hashlib
     h = hashlib.sha1()
@@ -184,6 +216,7 @@ def gen_net(P):
                 cases.append(NetScenario(r, impl).run())
         finally:
             impl.close()
+        cases += stale_shutdown_cases(P, seed, P.scale(tier, 24, 200))
         try:
             os.makedirs(cdir, exist_ok=True)
             for fn in os.listdir(cdir):
@@ -219,6 +252,8 @@ class NetTrace:
                 c = self.calls[t[2]]
                 if t[1] == "state" and (out.startswith("ok:") or out.startswith("err:")):
                     c["res"] = out
+                    if out.startswith("ok:"):
+                        c["ok_at"] = i
                 if t[1] == "write" and out.startswith("ready:"):
                     c["w"] += int(out.split(":")[1])
                 if t[1] == "read":
@@ -232,6 +267,7 @@ class NetTrace:
                     c["shut"] = True          # the writer was TOLD its shutdown succeeded
                 if t[1] in ("close", "abort"):
                     c["closed"] = True
+                    c.setdefault("closed_at", i)
             elif t[1] == "tables":
                 tabs = {}
                 for m in re.finditer(r"(\d+):\{([^}]*)\}", out):
@@ -305,7 +341,15 @@ def oracle_limit_release(P):
             for port, keys in tabs.items():
                 if keys is not None and len(keys) > tr.max:
                     hits.append({"sig": {"oracle": "net_tables", "what": "limit_exceeded"}, "text": f"socket {port} holds {len(keys)} connections, limit {tr.max}"})
-        if tr.tables:
+                # a stream whose call has JUST resolved Ok (no time has passed, no datagram was delivered since) is alive:
+                # its socket's table must have an entry for it
+                quiet_from = max([j for j, (op, _o) in enumerate(tr.steps[:i]) if op.startswith(("net adv", "net pump", "net stage"))] + [-1])
+                fresh = [n for n, c in tr.calls.items() if c["sock"] == port and quiet_from < c.get("ok_at", -1) < i]
+                if keys is not None and len(fresh) > len(keys):
+                    hits.append({"sig": {"oracle": "net_tables", "what": "held_stream_not_in_table"},
+                                 "text": f"socket {port}: {', '.join(fresh)} has just been handed to the application, but the connection table has only {len(keys)} entries {keys}: the new connection was evicted from the table (datagrams for it are no longer delivered, its share of the limit is not counted)"})
+        all_let_go = all(c["closed"] or (c["res"] or "").startswith("err") for c in tr.calls.values())
+        if tr.tables and all_let_go:
             i, tabs, wire = tr.tables[-1]
             left = {p: k for p, k in tabs.items() if k}
             if left:
